@@ -1,7 +1,7 @@
 (* C06 - Every counted line lands in exactly one platform set; all reports agree.
    Statements only. *)
 From Coq Require Import ZArith QArith String Bool Arith Permutation Sorted List.
-From CBI Require Import Lib.Data Lib.Res Model.C06 Spec.C06 Proofs.C06 Proofs.C06tree Proofs.C06more Proofs.C06letters Proofs.C06rowsx Proofs.C06leaf.
+From CBI Require Import Lib.Data Lib.Res Model.C06 Spec.C06 Proofs.C06 Proofs.C06tree Proofs.C06more Proofs.C06letters Proofs.C06rowsx Proofs.C06leaf Proofs.C06order Proofs.C06link.
 Import ListNotations.
 Local Open Scope Z_scope.
 
@@ -218,6 +218,77 @@ Theorem C06_reports_agree : forall files, Forall file_ok files -> links_ok files
   tsm (files_tree false files) = get_setmap files.
 Proof. exact reports_agree. Qed.
 Print Assumptions C06_reports_agree.
+
+(* The order of the summary rows.  kltb is the key of report.summary,
+   (size of the platform set, sorted names) with Python's order on str: it is a
+   strict total order on platform sets.  The printed rows are STRICTLY sorted by
+   it, and (being also a permutation of the buckets, C06_rows) the whole result of
+   summary is a function of the setmap as a finite map: any dict with the same
+   entries in another insertion order prints the same rows in the same order. *)
+Theorem C06_row_order :
+  (forall a, kltb a a = false) /\
+  (forall a b c, kltb a b = true -> kltb b c = true -> kltb a c = true) /\
+  (forall a b, kltb a b = false -> kltb b a = false -> a = b) /\
+  (forall files rows total, summary (get_setmap files) = Ok (rows, total) ->
+     StronglySorted (fun a b => kltb (skey a) (skey b) = true) rows /\
+     (forall m, Permutation m (get_setmap files) -> summary m = Ok (rows, total))) /\
+  (forall m1 m2, NoDup (map fst m1) -> Permutation m1 m2 -> summary m1 = summary m2).
+Proof.
+  split; [exact kltb_irrefl|]. split; [exact kltb_trans|]. split; [exact kltb_total|].
+  split; [exact summary_row_order | exact summary_canonical].
+Qed.
+Print Assumptions C06_row_order.
+
+(* The row of ANY shown file, symlink or not, whose leaf carries the file's setmap:
+   SLOC = all its lines; letters = legend platforms occurring on its nodes; the
+   coverage numerator counts the lines whose platform set meets ps, the platforms
+   the coverage is taken over (the legend, or the file's own platforms when the
+   legend is empty); per-platform numerators over ps.  If every platform of the
+   file occurs in the legend (always so for a non-link shown file; for a symlink
+   it holds when its target, or any other non-link file, carries the platform -
+   what finder.find produces, checked by the differential run) the numerator is
+   simply the file's lines with a non-empty platform set. *)
+Theorem C06_link_rows : forall U prune files f n d, names_in U files ->
+  (forall g, In g files -> fpath g <> []) ->
+  In f files -> tsm n = file_setmap f ->
+  let rp := node_plats U (tsm (files_tree prune files)) in
+  let ps := eff_plats rp U (tsm n) in
+  let r := mkrow rp U d n in
+  ps = match rp with [] => filter (fun p => existsb (fun x => mem p (nplat x)) (fnodes f)) U | _ => rp end /\
+  rtotal r = nodes_sum (fun _ => true) (fnodes f) /\
+  rused r = nodes_sum (fun k => negb (is_empty k) && existsb (fun p => mem p ps) k) (fnodes f) /\
+  rmask r = map (fun p => existsb (fun x => mem p (nplat x)) (fnodes f)) rp /\
+  rper r = map (fun p => nodes_sum (mem p) (fnodes f)) ps /\
+  ((forall x p, In x (fnodes f) -> mem p (nplat x) = true -> below_any (mem p) prune [] files = true) ->
+     rused r = nodes_sum (fun k => negb (is_empty k)) (fnodes f)).
+Proof. exact leaf_row. Qed.
+Print Assumptions C06_link_rows.
+
+(* ... and without the legend hypothesis that last equation is false of the model:
+   a symlink whose only platform P occurs on no non-link file, beside a file of
+   platform Q, gets the coverage numerator 0 although its line is used by P. *)
+Theorem C06_link_row_used_refuted : exists U files f row,
+  In f files /\ flink f = true /\ In row (snd (report_files U false None files)) /\
+  rname row = last (fpath f) EmptyString /\
+  rused row <> nodes_sum (fun k => negb (is_empty k)) (fnodes f).
+Proof.
+  exists ["P"; "Q"]%string, lk_files, (nth 1 lk_files (nth 0 lk_files (nth 0 lk_files
+    {| fpath := []; flink := false; ftarget_in := false; fid := EmptyString; fnodes := [] |}))),
+    (nth 2 (snd (report_files ["P"; "Q"]%string false None lk_files))
+       {| rdepth := 0; rname := EmptyString; rdir := false; rlink := false; rmask := []; rtotal := 0; rused := 0; rper := [] |}).
+  vm_compute. repeat split; try (right; left; reflexivity); try (right; right; left; reflexivity). discriminate.
+Qed.
+Print Assumptions C06_link_row_used_refuted.
+
+(* The three front ends list the same files: on well-formed paths the non-directory
+   nodes of the unpruned tree sit exactly at the paths of the code-base
+   enumeration, and the coverage export has one entry per enumerated file, in
+   enumeration order, with that path. *)
+Theorem C06_file_lists : forall files, wf_paths files ->
+  (forall q, (exists n, lookup q (files_tree false files) = Some n /\ tdir n = false) <-> In q (map fpath files)) /\
+  map epath (export files) = map fpath files.
+Proof. exact file_lists. Qed.
+Print Assumptions C06_file_lists.
 
 (* non-vacuity: two directories, a file used by two platforms with an unused block,
    a header used by one platform, an unused header, and a symlink to a member *)
